@@ -74,7 +74,51 @@ for size in range(2, N + 1):
             if len(samples) < 2 and len(todo) == 3:
                 samples.append({"parents": {k.decode(): [x.decode() for x in v] for k, v in pm.items()}, "onto": onto.decode(),
                                 "plan": {k.decode(): [plan[k][0].decode(), [x.decode() for x in plan[k][1]]] for k in plan}})
+
+# ---- generate_transpose_plan: a set of revisions is replaced (renamed); every descendant must be rewritten, and in the plan no new
+#      parent is the OLD id of a replaced or rewritten revision (parents are the replacements / earlier rewrites or untouched revisions)
+def descendants(pm, roots):
+    out, changed = set(roots), True
+    while changed:
+        changed = False
+        for r, ps in pm.items():
+            if r not in out and any(p in out for p in ps):
+                out.add(r); changed = True
+    return out
+
+
+NT = 5 if tier == "quick" else 6
+for size in range(2, NT + 1):
+    for ids, pm in dags(size):
+        allp = dict(pm); allp.update({b"new-" + i_: pm[i_] for i_ in ids})
+        g = Graph(DictParentsProvider(allp))
+        for k in (1, 2):
+            for ren in itertools.combinations(ids, k):
+                n += 1
+                renames = {r: b"new-" + r for r in ren}
+                ancestry = [(r, pm[r]) for r in ids]
+                try:
+                    plan = R.generate_transpose_plan(iter(ancestry), renames, g, lambda old, parents: old + b"'")
+                except Exception as e:  # noqa
+                    bad("bounded::C51.transpose_plan", "dag %r renames %r" % (pm, renames), repr(e), "a plan")
+                    continue
+                must = descendants(pm, ren) - set(ren)        # the replaced revisions themselves exist already: only their descendants are rewritten
+                if len(must) >= 3:
+                    nontrivial += 1
+                if set(plan) != must:
+                    bad("bounded::C51.transpose_rewrites_exactly_the_descendants", "dag %r renames %r" % (pm, sorted(ren)), repr(sorted(plan)), repr(sorted(must)))
+                    continue
+                for old, (newr, newps) in plan.items():
+                    if old in renames:
+                        continue
+                    want = tuple(renames[p_] if p_ in renames else (plan[p_][0] if p_ in plan else p_) for p_ in pm[old])
+                    if tuple(newps) != want:
+                        bad("bounded::C51.transpose_parents_are_the_replacements", "dag %r renames %r revision %r" % (pm, sorted(ren), old),
+                            repr(newps), repr(want) + " (every replaced or rewritten parent by its new id)")
+                text = R.marshall_rebase_plan((len(ids), ids[-1]), plan)
+                if R.unmarshall_rebase_plan(text) != ((len(ids), ids[-1]), plan):
+                    bad("bounded::C51.plan_file_round_trip", "plan %r" % plan, "differs", "identical")
 print(json.dumps({"evaluations": n, "distinct_nontrivial": nontrivial, "exhaustive": True,
                   "rule": "every DAG of 2..%d revisions (each revision has one or two parents among the earlier ones) x every onto revision with a non-empty "
-                          "set to replay; non-trivial = at least two revisions to replay" % N,
+                          "set to replay; non-trivial = at least two revisions to replay; transpose plans: every DAG up to %d revisions x every 1 or 2 renamed revisions" % (N, NT),
                   "samples": samples, "violations": viol, "label": "bounded"}))
